@@ -231,14 +231,7 @@ def run(ctx):
     ctx.floor('enqueue sites in try_enqueue', len(enq_sites), 2)
 
     # ---------------------------------------------------------------- R4 single append site
-    apps = []
-    for f in [run_f] + list(cl.values()):
-        for c in calls_in(f.node):
-            if last_attr(c) in ('append', 'extend', 'insert') and receiver(c) == N['ret']:
-                apps.append((f, c))
-    ok = len(apps) == 1 and apps[0][0] is hr and last_attr(apps[0][1]) == 'append' and is_name(apps[0][1].args[0], hr.params[1])
-    ctx.check('R4', 'results are appended at exactly one site (handle_new_result, the received value)', ok, 'Pool.run', f'result-append-sites:{len(apps)}',
-              f'{len(apps)} sites add to the result list (expected: one append of the received result in handle_new_result)', where=loc(run_f, run_f.node))
+    check_single_append(ctx, run_f, cl, N, 'R4')
     # once per flag-true message: the call of handle_new_result sits on the flag-true side
     flag_tests = [n for n in gr.nodes if n.kind == 'test' and isinstance(n.stmt, ast.If) and norm(n.stmt.test) in ('not ' + N['flag'], N['flag'])]
     ok = bool(flag_tests)
@@ -295,6 +288,26 @@ def run(ctx):
                                       and st.value.elts[1].value is False for st in ast.walk(h))
         ctx.check('R6', 'EOF is turned into an artificial closing message', synth, 'Pool.run', 'no-artificial-closing-message',
                   'a bare EOF of a result pipe is not turned into a closing message: the death of that worker is never handled', where=loc(run_f, recv_try))
+
+
+def check_single_append(ctx, run_f, cl, N, rule):
+    hr = cl['handle_new_result']
+    apps = []
+    for f in [run_f] + list(cl.values()):
+        for c in calls_in(f.node):
+            if last_attr(c) in ('append', 'extend', 'insert') and receiver(c) == N['ret']:
+                apps.append((f, c))
+        for st in walk_local(f.node):
+            if isinstance(st, ast.AugAssign) and is_name(st.target, N['ret']):
+                apps.append((f, st))
+    ok = len(apps) == 1 and apps[0][0] is hr and isinstance(apps[0][1], ast.Call) and last_attr(apps[0][1]) == 'append' and is_name(apps[0][1].args[0], hr.params[1])
+    where = loc(run_f, run_f.node)
+    extra = [a for a in apps if a[0] is not hr]
+    if extra:
+        where = loc(extra[0][0], extra[0][1])
+    ctx.check(rule, 'results are appended at exactly one site (handle_new_result, the received value)', ok, 'Pool.run', f'result-append-sites:{len(apps)}',
+              f'{len(apps)} sites add to the result list (expected: one append of the received result in handle_new_result, which consumes the pending input it answers): '
+              'a result can be kept for an input that is also retried - two results for one input in the return value / PoolError.partial_results', where=where)
 
 
 def check_enqueue_callers(ctx, pool, run_f, cl, rule='R3'):
